@@ -12,7 +12,6 @@
     - wire cases ([wcase]): a message name, a value tree, and the bytes both generated
       families produced for it (and for each other's output). *)
 From Irismod Require Export Proto.Desc Proto.Wire Proto.WireEnv Gen.Descriptors.
-From Coq Require Export Uint63.
 Open Scope N_scope.
 
 Definition seqb := String.eqb.
@@ -107,7 +106,7 @@ Definition check_static (c : scase) : Z * Z * Z :=
             end
         end in
       let a := take false source_rows in
-      let b := take false (desc_rows pulsar_files) in
+      let b := take false (desc_rows aggregate_opts pulsar_files) in
       ((-1)%Z, first_diff (fun x y : srow => Prelude.eqb x y) a b 0%Z, 30%Z)
   | SDep full =>
       let pr fs := find (fun p => seqb (fst p) full) (wire_proj fs) in
@@ -146,36 +145,6 @@ Record wcase := mkW {
 }.
 
 Definition VB (hex : string) : value := VBytes (unhex_bytes hex).
-
-(** byte strings as the driver writes them: [len] bytes, in big-endian chunks of 7 bytes held in
-    primitive 63-bit integers (the last chunk holds the remaining [len mod 7] bytes).  A string
-    literal costs the type checker ~20 term nodes per byte, a chunk 2 nodes per 7 bytes. *)
-Fixpoint bits_to_N (k : nat) (i : int) : N :=
-  match k with
-  | O => 0
-  | S k' => let r := bits_to_N k' (Uint63.lsr i 1%uint63) in
-            if Uint63.is_even i then N.double r else N.succ_double r
-  end.
-
-(** the [k] low bytes of [c], most significant first, in front of [acc] *)
-Fixpoint be_bytes (k : nat) (c : int) (acc : list N) : list N :=
-  match k with
-  | O => acc
-  | S k' => be_bytes k' (Uint63.lsr c 8%uint63) (bits_to_N 8 (Uint63.land c 255%uint63) :: acc)
-  end.
-
-Fixpoint chunk_bytes (len : N) (cs : list int) : list N :=
-  match cs with
-  | [] => []
-  | c :: r =>
-      let k := N.min 7 len in
-      be_bytes (N.to_nat k) c (chunk_bytes (len - k) r)
-  end.
-
-Definition BY (len : N) (cs : list int) : list N := chunk_bytes len cs.
-Arguments BY len%N cs%uint63.
-Definition VY (len : N) (cs : list int) : value := VBytes (BY len cs).
-Arguments VY len%N cs%uint63.
 
 Definition penv : env := wire_env false (pulsar_files ++ pulsar_deps).
 Definition genv : env := wire_env true (gogo_files ++ gogo_deps).
